@@ -135,6 +135,23 @@ Theorem C18_codec_roundtrip : forall chg idlen es ovf graph povf,
       (ce_gen e, ce_parents e, index_of (ce_change e) chg 0, ce_id e).
 Proof. exact entries_roundtrip. Qed.
 
+(** The whole file: writing a segment (version, parent file name, counts, graph entries,
+    sorted commit lookup, sorted change ids with inline / overflow positions, parent and
+    change overflow tables) and reading it back with the reader's offset arithmetic yields
+    the parent file name and every commit's generation, parents and id, under the writer's
+    own bounds (u32 counts, positions below the overflow flag) and distinct commit ids. *)
+Theorem C18_file_roundtrip : forall idlen chlen parent es graph povf cpos covf,
+  let hl := change_lookup es in
+  enc_entries (map fst hl) es [] = (graph, povf) -> enc_change_pos hl [] = (cpos, covf) ->
+  Forall (entry_ok idlen) es -> (forall e, In e es -> length (ce_change e) = chlen) ->
+  NoDup (map ce_id es) ->
+  (N.of_nat (length parent) <= U32MAX)%N -> (N.of_nat (length es) <= U32MAX)%N ->
+  (N.of_nat (length hl) <= U32MAX)%N -> (N.of_nat (length povf) < C18_OVERFLOW_FLAG)%N ->
+  (N.of_nat (length covf) <= U32MAX)%N ->
+  decode_file idlen chlen (encode_file parent es) =
+  Some (parent, map (fun e => (ce_gen e, ce_parents e, ce_id e)) es).
+Proof. exact file_roundtrip. Qed.
+
 (** The checker run on the implementation's recorded answers: acceptance means the answer
     satisfies the declarative graph statement ... *)
 Theorem C18_checker_sound : forall (g : graph) (q : query), wf g ->
@@ -193,6 +210,7 @@ Print Assumptions C18_heads.
 Print Assumptions C18_common_ancestors.
 Print Assumptions C18_generation.
 Print Assumptions C18_codec_roundtrip.
+Print Assumptions C18_file_roundtrip.
 Print Assumptions C18_abs_flat.
 Print Assumptions C18_heads_range.
 Print Assumptions C18_heads_range_restricted.
